@@ -183,6 +183,17 @@ def field_lattice(rng, mode="f"):
     return out
 
 
+def with_default_bounds(rng, cases, p=0.06):
+    """some of the field-mode cases once more without -f: the implicit selection (everything) is built by
+    the program itself, not by the parser"""
+    out = []
+    for c in cases:
+        if c.entry == "main" and b"-f" in c.argv and not c.tags and not c.seg and not c.extra and rng.random() < p:
+            i = c.argv.index(b"-f")
+            out.append(Case(c.argv[:i] + c.argv[i + 2:], c.stdin))
+    return out
+
+
 def regex_lattice(rng):
     """every subset of the options that meet on the regex path, times a few bounds shapes, on records
     with more fields than any bound names (empty fields and runs of matches included)"""
@@ -386,6 +397,10 @@ def c10(rng, count):
                 out.append(Case(argv, d, entry="stream", seg=_rand_seg(rng, len(d)) if d else [], tags={"grp": g, "role": role}))
             else:
                 out.append(Case(argv, d, tags={"grp": g, "role": role}))
+        if kind != "stream" and len(A + B) > 1 and rng.random() < 0.4:
+            # the concatenation once more, arriving in pieces (read shim): what the reader carries over from
+            # one read to the next must not show either
+            out.append(Case(argv, A + B, seg=_rand_seg(rng, len(A + B)), tags={"grp": g, "role": "AB_seg"}))
     return out
 
 
@@ -435,6 +450,8 @@ def c15(rng, count):
             if r < 0.3: extra.append("-j")
             elif r < 0.5: extra += ["-r", "/"]
             elif r < 0.7: extra.append("--json")
+            elif r < 0.8: extra.append("--no-join")
+        if mode == "l" and rng.random() < 0.35: extra.append("--no-join")
         if z: extra.append("-z")
         data = _uniform_input(rng, mode, n, delim, eol)
         out.append(Case(["-" + mode, ",".join(_render(b) for b in bs), "-m"] + extra, data,
